@@ -80,6 +80,7 @@ type Event struct {
 	Obs     string `json:"obs,omitempty"`
 	Action  string `json:"action,omitempty"`
 	TimeNs  int64  `json:"t,omitempty"`
+	Ext     string `json:"ext,omitempty"` // extensions in force (latest EHLO reply) when a command arrived
 }
 
 // Commit is one message accepted at end-of-data with a 2yz reply.
@@ -194,6 +195,7 @@ type Session struct {
 	closed  bool
 	mailUTF8 bool
 	stallAfterWrite int64
+	lastAuth        bool // the previous command was an AUTH exchange
 }
 
 func (s *Session) state() string {
@@ -396,7 +398,7 @@ func (s *Session) reply(cmdSeq int, verb string, nth int, act Action, defCode in
 		s.obs("pipelined-before-reply:"+verb, "")
 	}
 	seq := s.srv.H.add(Event{}) // reserve the sequence number for the token
-	token := fmt.Sprintf("r%d", seq)
+	token := fmt.Sprintf("TK%dKT", seq)
 	var wire strings.Builder
 	var full string
 	if kind == "garbage" {
@@ -491,7 +493,18 @@ func (s *Session) caps() []string {
 func (s *Session) handle(line string) bool {
 	c := ParseCommand(line)
 	act, nth, _ := Action{}, 0, false
-	cmdSeq := s.ev(Event{Kind: "cmd", Verb: c.Verb, Line: line, Cmd: &c})
+	afterAuth := s.lastAuth
+	s.lastAuth = false
+	if line == "*" && afterAuth {
+		// The SASL cancel line sent after the exchange already ended with a final reply (net/smtp
+		// does this, go-mail inherited it and its test suite pins it). A strict server answers
+		// 500; it is recorded under its own name so that properties can decide whether it is
+		// theirs to judge.
+		cmdSeq := s.ev(Event{Kind: "cmd", Verb: "*", Line: line})
+		s.obs("auth-cancel-after-final-reply", line)
+		return s.reply(cmdSeq, "*", 0, Action{}, 500, "", "command unrecognized")
+	}
+	cmdSeq := s.ev(Event{Kind: "cmd", Verb: c.Verb, Line: line, Cmd: &c, Ext: strings.Join(s.ext, ",")})
 	for _, sx := range c.Syntax {
 		s.obs("syntax:"+sx, line)
 	}
@@ -578,6 +591,7 @@ func (s *Session) handle(line string) bool {
 		}
 		return s.startTLS()
 	case "AUTH":
+		s.lastAuth = true
 		return s.handleAuth(cmdSeq, c, line)
 	case "MAIL":
 		act, nth, _ = s.rule("MAIL")
